@@ -16,7 +16,27 @@ import (
 	"verifharness/internal/cases"
 	"verifharness/internal/cq"
 	"verifharness/internal/framefmt"
+	"verifharness/internal/noise"
 )
+
+// nr drives the unrelated library calls made between the compared calls (own stream: case generation is unaffected);
+// quiet suppresses them inside a family of calls that must run back to back
+var nr *cq.RNG
+var quiet bool
+var lastKey = "(none)"
+
+func step() {
+	if !quiet {
+		noise.Step(nr)
+	}
+}
+
+func clip(k string) string {
+	if len(k) > 300 {
+		return k[:300] + "..."
+	}
+	return k
+}
 
 func hx(b []byte) string { return fmt.Sprintf("%x", b) }
 
@@ -66,6 +86,7 @@ func tamper(r *cq.RNG, mic lorawan.MIC, how int) lorawan.MIC {
 var hows = []string{"valid", "random", "bitflip"}
 
 func upJoin(s *cases.Set, r *cq.RNG, p lorawan.PHYPayload, k lorawan.AES128Key, how int, kind string) {
+	step()
 	oset, oval := cq.Err, cq.Err
 	func() {
 		defer func() {
@@ -88,13 +109,29 @@ func upJoin(s *cases.Set, r *cq.RNG, p lorawan.PHYPayload, k lorawan.AES128Key, 
 		}()
 		oval = obool(p.ValidateUplinkJoinMIC(k))
 	}()
-	s.Add(cases.Case{Term: fmt.Sprintf("CUpJoin %s %s %s %s", cq.Bytes(k[:]), t, oset, oval),
-		Key: fmt.Sprintf("upjoin:key=%s:mic=%s:%s", hx(k[:]), hows[how], t), Kind: kind, Nontrivial: true,
-		Replay: map[string]interface{}{"api": "SetUplinkJoinMIC on a copy, ValidateUplinkJoinMIC on the frame as given", "key": hx(k[:]), "frame": t,
-			"observed": map[string]string{"set": oset, "validate": oval}}})
+	ks := fmt.Sprintf("upjoin:key=%s:mic=%s:%s", hx(k[:]), hows[how], t)
+	rp := map[string]interface{}{"api": "SetUplinkJoinMIC on a copy, ValidateUplinkJoinMIC on the frame as given", "key": hx(k[:]), "frame": t,
+		"previous_compared_call": lastKey, "observed": map[string]string{"set": oset, "validate": oval}}
+	s.Add(cases.Case{Term: fmt.Sprintf("CUpJoin %s %s %s %s", cq.Bytes(k[:]), t, oset, oval), Key: ks, Kind: kind, Nontrivial: true, Replay: rp})
+	lastKey = clip(ks)
+	q := p
+	s.Remember(ks, oset+" "+oval, rp, func() (res string) {
+		defer func() {
+			if e := recover(); e != nil {
+				res = cq.Panic
+			}
+		}()
+		c := q
+		a := cq.Err
+		if err := c.SetUplinkJoinMIC(k); err == nil {
+			a = cq.Ok(cq.Bytes(c.MIC[:]))
+		}
+		return a + " " + obool(q.ValidateUplinkJoinMIC(k))
+	})
 }
 
 func downJoin(s *cases.Set, r *cq.RNG, p lorawan.PHYPayload, ty lorawan.JoinType, je lorawan.EUI64, dn lorawan.DevNonce, k lorawan.AES128Key, how int, kind string) {
+	step()
 	oset, oval := cq.Err, cq.Err
 	func() {
 		defer func() {
@@ -117,10 +154,26 @@ func downJoin(s *cases.Set, r *cq.RNG, p lorawan.PHYPayload, ty lorawan.JoinType
 		}()
 		oval = obool(p.ValidateDownlinkJoinMIC(ty, je, dn, k))
 	}()
+	ks := fmt.Sprintf("downjoin:type=%d:joineui=%s:devnonce=%d:key=%s:mic=%s:%s", byte(ty), hx(je[:]), uint16(dn), hx(k[:]), hows[how], t)
+	rp := map[string]interface{}{"api": "SetDownlinkJoinMIC on a copy, ValidateDownlinkJoinMIC on the frame as given", "joinReqType": byte(ty), "joinEUI": hx(je[:]),
+		"devNonce": uint16(dn), "key": hx(k[:]), "frame": t, "previous_compared_call": lastKey, "observed": map[string]string{"set": oset, "validate": oval}}
 	s.Add(cases.Case{Term: fmt.Sprintf("CDownJoin %d %s %d %s %s %s %s", byte(ty), cq.Bytes(je[:]), uint16(dn), cq.Bytes(k[:]), t, oset, oval),
-		Key: fmt.Sprintf("downjoin:type=%d:joineui=%s:devnonce=%d:key=%s:mic=%s:%s", byte(ty), hx(je[:]), uint16(dn), hx(k[:]), hows[how], t), Kind: kind, Nontrivial: true,
-		Replay: map[string]interface{}{"api": "SetDownlinkJoinMIC on a copy, ValidateDownlinkJoinMIC on the frame as given", "joinReqType": byte(ty), "joinEUI": hx(je[:]),
-			"devNonce": uint16(dn), "key": hx(k[:]), "frame": t, "observed": map[string]string{"set": oset, "validate": oval}}})
+		Key: ks, Kind: kind, Nontrivial: true, Replay: rp})
+	lastKey = clip(ks)
+	q := p
+	s.Remember(ks, oset+" "+oval, rp, func() (res string) {
+		defer func() {
+			if e := recover(); e != nil {
+				res = cq.Panic
+			}
+		}()
+		c := q
+		a := cq.Err
+		if err := c.SetDownlinkJoinMIC(ty, je, dn, k); err == nil {
+			a = cq.Ok(cq.Bytes(c.MIC[:]))
+		}
+		return a + " " + obool(q.ValidateDownlinkJoinMIC(ty, je, dn, k))
+	})
 }
 
 func encrypt(p *lorawan.PHYPayload, k lorawan.AES128Key) (s string) {
@@ -161,6 +214,7 @@ func trailingZeroMask(p lorawan.PHYPayload) bool {
 }
 
 func encCases(s *cases.Set, p lorawan.PHYPayload, k lorawan.AES128Key, kind string) {
+	step()
 	t := framefmt.Phy(p, 0)
 	var plain []byte
 	if p.MACPayload != nil {
@@ -173,7 +227,8 @@ func encCases(s *cases.Set, p lorawan.PHYPayload, k lorawan.AES128Key, kind stri
 	q := p
 	o := encrypt(&q, k)
 	s.Add(cases.Case{Term: fmt.Sprintf("CEnc %s %s %s", cq.Bytes(k[:]), t, o), Key: "enc:key=" + hx(k[:]) + ":" + t, Kind: kind, Nontrivial: true,
-		Replay: map[string]interface{}{"api": "EncryptJoinAcceptPayload", "key": hx(k[:]), "frame": t, "observed": o}})
+		Replay: map[string]interface{}{"api": "EncryptJoinAcceptPayload", "key": hx(k[:]), "frame": t, "observed": o, "previous_compared_call": lastKey}})
+	lastKey = clip("enc:key=" + hx(k[:]) + ":" + t)
 	if o == cq.Err || o == cq.Panic {
 		return
 	}
@@ -203,6 +258,7 @@ func encCases(s *cases.Set, p lorawan.PHYPayload, k lorawan.AES128Key, kind stri
 }
 
 func decCase(s *cases.Set, p lorawan.PHYPayload, k lorawan.AES128Key, kind string) {
+	step()
 	t := framefmt.Phy(p, 0)
 	o := decrypt(&p, k)
 	s.Add(cases.Case{Term: fmt.Sprintf("CDec %s %s %s", cq.Bytes(k[:]), t, o), Key: "dec:key=" + hx(k[:]) + ":" + t, Kind: kind, Nontrivial: true,
@@ -235,14 +291,65 @@ func aesDecCase(s *cases.Set, k, b []byte, name string) {
 		Replay: map[string]interface{}{"api": "crypto/aes Decrypt", "key": hx(k), "block": hx(b), "observed": hx(o)}})
 }
 
+// badFrame: a frame on which the MIC / encryption functions fail (the payload refuses to marshal, or is missing).
+func badFrame(r *cq.RNG, which int) lorawan.PHYPayload {
+	switch which % 4 {
+	case 0: // rejoin-request type 0/2 payload carrying RejoinType 1
+		p := framefmt.JoinFrame(r, 2)
+		p.MACPayload.(*lorawan.RejoinRequestType02Payload).RejoinType = lorawan.RejoinRequestType1
+		return p
+	case 1: // rejoin-request type 1 payload carrying RejoinType 0
+		p := framefmt.JoinFrame(r, 4)
+		p.MACPayload.(*lorawan.RejoinRequestType1Payload).RejoinType = lorawan.RejoinRequestType0
+		return p
+	case 2: // join-accept with a JoinNonce that does not fit 24 bits
+		p := framefmt.JoinFrame(r, 1)
+		p.MACPayload.(*lorawan.JoinAcceptPayload).JoinNonce = lorawan.JoinNonce(1<<24 + r.Intn(100))
+		return p
+	default:
+		p := framefmt.JoinFrame(r, 0)
+		p.MACPayload = nil
+		return p
+	}
+}
+
+// failThenValid: a call that fails, immediately followed by valid calls of each kind (no other library call in
+// between), then the valid calls once more. A failed call must leave nothing behind.
+func failThenValid(s *cases.Set, r *cq.RNG, i int) {
+	noise.Step(nr)
+	quiet = true
+	defer func() { quiet = false }()
+	k := key(r)
+	bad := badFrame(r, i)
+	good := framefmt.JoinFrame(r, []int{0, 2, 3, 4}[(i/4)%4])
+	ja := framefmt.JoinFrame(r, 1)
+	je, dn := eui(r), lorawan.DevNonce(r.Intn(65536))
+	switch (i / 16) % 3 {
+	case 0:
+		upJoin(s, r, bad, k, 0, "family-failing")
+	case 1:
+		downJoin(s, r, bad, joinTypes[i%4], je, dn, k, 0, "family-failing")
+	default:
+		encCases(s, bad, k, "family-failing")
+	}
+	upJoin(s, r, good, k, 0, "family-after-failure")
+	downJoin(s, r, ja, joinTypes[i%4], je, dn, k, 0, "family-after-failure")
+	jb := ja
+	if err := jb.SetDownlinkJoinMIC(joinTypes[i%4], je, dn, k); err == nil {
+		encCases(s, jb, k, "family-after-failure")
+	}
+	upJoin(s, r, good, k, 0, "family-after-failure")
+}
+
 var joinTypes = []lorawan.JoinType{lorawan.JoinRequestType, lorawan.RejoinRequestType0, lorawan.RejoinRequestType1, lorawan.RejoinRequestType2}
 
 func main() {
 	log.SetOutput(io.Discard)
 	dir, seed, thorough := cases.Args()
 	r := cq.NewRNG(seed)
+	nr = cq.NewRNG(seed ^ 0x9e3779b97f4a7c15)
 	s := cases.New("C04", dir, "LW.Corr.C04",
-		"RFC 4493 examples and the FIPS-197 C.1 decryption first; corpus: join-accept with channel-mask CFList [m0; 0] (C04-1). Join-request and rejoin-request types 0, 1, 2 (palindromic EUIs in 25%), carried MIC valid / random / bit-flipped; join-accept frames with OptNeg both ways, CFList absent / 5 channels / 1..6 masks, JoinNonce 0 and 2^24-1 boundaries, all four JoinReqType values cycled, palindromic and non-palindromic JoinEUI, DevNonce boundaries; EncryptJoinAcceptPayload (device-side aes.Encrypt check in Go and in Coq), Decrypt with the same and with another key, malformed inputs (wrong payload types, lengths not 16/32, JoinNonce >= 2^24). Distinct by construction (random keys).")
+		"RFC 4493 examples and the FIPS-197 C.1 decryption first; corpus: join-accept with channel-mask CFList [m0; 0] (C04-1). Join-request and rejoin-request types 0, 1, 2 (palindromic EUIs in 25%), carried MIC valid / random / bit-flipped; join-accept frames with OptNeg both ways, CFList absent / 5 channels / 1..6 masks, JoinNonce 0 and 2^24-1 boundaries, all four JoinReqType values cycled, palindromic and non-palindromic JoinEUI, DevNonce boundaries; EncryptJoinAcceptPayload (device-side aes.Encrypt check in Go and in Coq), Decrypt with the same and with another key, malformed inputs (wrong payload types, lengths not 16/32, JoinNonce >= 2^24). History: unrelated library calls (internal/noise) before every compared call; fail-then-valid families run back to back (a failing Set/Validate/Encrypt call - rejoin payload with the wrong RejoinType, JoinNonce >= 2^24, nil payload - immediately followed by a valid uplink join MIC, join-accept MIC and encryption, and the first valid call again), each compared with model and specification; every MIC call is repeated three times later in the process (reverse, same, shuffled order) and must give its first result. Distinct by construction (random keys) except the repeated calls.")
 	s.ShardSize = 150
 	n := 400
 	if thorough {
@@ -317,6 +424,9 @@ func main() {
 			copy(rnd.MIC[:], r.Bytes(4))
 			decCase(s, rnd, key(r), "decrypt-random")
 		}
+		if i%4 == 2 {
+			failThenValid(s, r, i/4)
+		}
 		if i%5 == 0 { // malformed
 			m := framefmt.JoinFrame(r, r.Intn(5))
 			switch r.Intn(4) {
@@ -341,6 +451,7 @@ func main() {
 			}
 		}
 	}
+	s.ReplayRemembered(nr.Intn, 3, func() { noise.Step(nr) })
 	if err := s.Finish(); err != nil {
 		fmt.Fprintln(os.Stderr, err)
 		os.Exit(2)
